@@ -42,6 +42,13 @@ Theorem sto_outlet_condition : forall ds strord ms l sb idxs x,
 Proof. exact SubbasSpec.sto_outlet_condition. Qed.
 Print Assumptions sto_outlet_condition.
 
+(* minimum-area sub-basins that do not end at a pit drain more than the area threshold *)
+Theorem area_outlet_condition : forall ds main uparea amin l upa sb idxs x,
+  In x (snd (fold_left (area_step ds main uparea amin) l (upa, sb, idxs))) -> In x idxs \/
+  (In x l /\ (dsf ds x = x \/ amin < nth x uparea 0)).
+Proof. exact SubbasSpec.area_outlet_condition. Qed.
+Print Assumptions area_outlet_condition.
+
 (* PFAFSTETTER DIGITS: every label of the Pfafstetter map, at every depth >= 1, is 0 (no outlet downstream) or a number
    of exactly `depth` digits each of which is 1..9 -- refining a level adds 1..8 to a digit that is still 1, so there is
    never a zero digit and never a carry into the coarser level (invariant of the work list: a queued label has digits
